@@ -301,6 +301,54 @@ def direct_predicates(world: World, locations: bool = True):
 # operations: JSON-able lists, executed on the implementation and serialised for the model
 # ---------------------------------------------------------------------------------------------
 
+def copy_request(world: World, node, mode):
+    """Perform `node.copy_tree_structure(...)` with the `new_parent` argument in the requested form.
+    mode: True = default, False = `new_parent=None`, 'empty' = a childless fresh Loop, 'nonempty' = a fresh Loop
+    with a child.  Returns (thunk, model argument, holder)."""
+    q = Q()
+    holder = {}
+    if mode is True:
+        return (lambda: node.copy_tree_structure()), True, holder
+    if mode is False:
+        return (lambda: node.copy_tree_structure(new_parent=None)), False, holder
+    P = q.Loop() if mode == 'empty' else q.Loop(children=[q.Loop(waveform=mk_wf((1, F(1), True, False)))])
+    world.number(P)
+    holder['P'] = P
+    return (lambda: node.copy_tree_structure(new_parent=P)), ['par', world.uids[id(P)], world.next], holder
+
+
+def copy_issue(node, out, mode, holder):
+    """The copy's root has exactly the requested parent and no recorded position; inside the copy every child's parent
+    is the node that lists it; a parentless copy is a program of its own (every node locates from its root)."""
+    want = node.parent if mode is True else (None if mode is False else holder['P'])
+    if out.parent is not want:
+        return ('copy_tree_structure(%s) returned a copy whose parent is %s' %
+                ({True: '', False: 'new_parent=None', 'empty': 'new_parent=<childless Loop>',
+                  'nonempty': 'new_parent=<Loop with a child>'}[mode],
+                 'None' if out.parent is None else ("the ORIGINAL's parent" if out.parent is node.parent else 'another node')))
+    if out._Node__parent_index is not None:
+        return 'the copy records a position although no node lists it'
+    stack = [out]
+    while stack:
+        n = stack.pop()
+        for k, c in enumerate(n):
+            if c.parent is not n or c._Node__parent_index != k:
+                return 'inside the copy a child does not point to the node that lists it'
+            stack.append(c)
+    if mode is False:
+        stack = [out]
+        while stack:
+            n = stack.pop()
+            try:
+                ok = n.get_root() is out and out.locate(n.get_location()) is n
+            except Exception:  # noqa
+                ok = False
+            if not ok:
+                return 'a node of the parentless copy is not located from the copy\'s root by its recorded location'
+            stack.extend(n)
+    return None
+
+
 def _arg(world: World, ref, target):
     """resolve an argument reference to a real Loop (and whether it came from the stash)"""
     kind = ref[0]
@@ -330,6 +378,7 @@ def exec_op(world: World, op):
     if node is None:
         return None
     out = None
+    world.issue = None  # a failed judgement about the operation's own result (copy)
     pre = []            # sub-steps performed inside the operation: (model operation, dump right after it)
     pl = list(path)
     thunk = None
@@ -443,11 +492,13 @@ def exec_op(world: World, op):
         lean = ['dropmeas', pl]
         thunk = lambda: node.get_measurement_windows(drop=True)
     elif name == 'copy':
-        lean = ['copy', pl, bool(op[2])]
+        do_copy, arg, holder = copy_request(world, node, op[2])
+        lean = ['copy', pl, arg]
 
         def thunk():
             nonlocal out
-            out = node.copy_tree_structure() if op[2] else node.copy_tree_structure(new_parent=None)
+            out = do_copy()
+            world.issue = copy_issue(node, out, op[2], holder)
     else:
         raise core.MachineryError('unknown op %r' % (op,))
 
@@ -703,7 +754,7 @@ def rand_op(rng, world: World, max_nodes=70):
         elif name == 'roll':
             op = ['roll', path, rng.choice([1, 1, 2, 3]), rng.choice([1, 4, 16, 16, 32]), rng.choice([[1, 1], [1, 1], [2, 1], [1, 2], [1, 4]])]
         else:
-            op = ['copy', path, rng.random() < 0.7]
+            op = ['copy', path, rng.choice([True, True, True, True, False, False, False, 'empty', 'empty', 'nonempty'])]
         if applicable_pre(world, op):
             return op
     return ['query', []]
@@ -731,6 +782,7 @@ ALPHABET_EXTRA = [
     ['setslice', [0], None, None, None, []], ['setrep', [], 0, 'count'],
     ['addmeas', [], [[1, F(1, 2), F(1)]], 'iter'], ['addmeas', [0, 0], [], 'iter'], ['dropmeas', [0]],
     ['addmeas', [1], [], 'list'], ['dropmeas', []],
+    ['copy', [0], False], ['copy', [0], 'empty'], ['copy', [0, 0], 'nonempty'],
     ['setslice', [], 1, 1, None, [_LEAF], [[0, []]]], ['setslice', [0], None, None, None, [], [[0, []], [0, [0]]]],
 ]
 
@@ -771,7 +823,7 @@ def run_history(init_spec, ops=None, rng=None, length=0, probe_every=True):
         rec['lean_ops'].append(lean)
         rec['errs'].append(err)
         rec['dumps'].append([world.dump(world.root), '-' if out is None else world.dump(out)])
-        rec['direct'].append((direct_predicates(world) or equality_predicates(world, len(rec['ops']) * 7 + world.next))
+        rec['direct'].append((world.issue or direct_predicates(world) or equality_predicates(world, len(rec['ops']) * 7 + world.next))
                              if probe_every else None)
         rec['kinds'].append(op[0])
     rec['line'] = sx(['c09', 'check', init_dump, next0, rec['lean_ops'], rec['dumps']])
@@ -974,7 +1026,8 @@ def _account(ctx, items, family):
             k, what = res['violation']
             sig = (it['ops'][k][0] if k >= 0 else 'init',
                    'cache' if ('cached-duration' in what or 'reports duration' in what) else
-                   'eq' if 'compare' in what or 'comparing' in what else 'links')
+                   'eq' if 'compare' in what or 'comparing' in what else
+                   'copy' if 'copy' in what else 'links')
         if res['violation'] and sig not in seen and len(seen) < 12:
             seen.add(sig)
             init, ops = it['init'], it['ops'][:k + 1]
@@ -1090,11 +1143,16 @@ def _check_beside(ctx, n):
                 m.duration
         branching = [(p, m) for p, m in inner if len(m) > 0 or m._waveform is None]
         path, x = rng.choice(branching if branching and rng.random() < 0.8 else inner)
-        mode = rng.choice(['copy', 'copy', 'copy-noparent', 'detach'])
-        if mode == 'copy':
-            d = x.copy_tree_structure()
-        elif mode == 'copy-noparent':
-            d = x.copy_tree_structure(new_parent=None)
+        mode = rng.choice(['copy', 'copy', 'copy-noparent', 'copy-noparent', 'copy-emptyparent', 'copy-newparent', 'detach'])
+        if mode.startswith('copy'):
+            how = {'copy': True, 'copy-noparent': False, 'copy-emptyparent': 'empty', 'copy-newparent': 'nonempty'}[mode]
+            do_copy, _arg_, holder = copy_request(w, x, how)
+            d = do_copy()
+            bad = copy_issue(x, d, how, holder)
+            ctx.case('beside-copy:%s:%s' % (mode, sx(w.dump(x))[:200]))
+            if bad:
+                ctx.violation(bad + ' (two-tree stream, %s)' % mode, {'kind': 'beside', 'mode': mode})
+                continue
         else:
             par = x.parent
             k = next(j for j, c in enumerate(par) if c is x)      # identity, not Loop.__eq__
@@ -1120,7 +1178,9 @@ def _check_beside(ctx, n):
                 ctx.count('beside:unroll-of-side-root-skipped')
                 w.root = main
                 continue
-            in_class = d.parent is not None and any(m is d.parent for _p, m in w.nodes(main))
+            # the known class is about DEFAULT copies and detached nodes; explicit / absent parents are outside it
+            in_class = (mode in ('copy', 'detach') and d.parent is not None
+                        and any(m is d.parent for _p, m in w.nodes(main)))
             t0, d0, next0 = w.dump(main), w.dump(d), w.next
             r = exec_op(w, op)
             w.root = main
